@@ -27,3 +27,16 @@ pub assume_specification[ char::is_ascii_digit ](c: &char) -> (r: bool)
 // std: U+0020 SPACE, U+0009 TAB, U+000A LF, U+000C FORM FEED, U+000D CR
 pub assume_specification[ char::is_ascii_whitespace ](c: &char) -> (r: bool)
     ensures r == (*c == '\u{20}' || *c == '\u{9}' || *c == '\u{A}' || *c == '\u{C}' || *c == '\u{D}');
+
+// std `char` predicates without a vstd specification: accepted with an uninterpreted result, so that code using
+// them stays within reach (nothing is assumed about which characters they select)
+pub uninterp spec fn char_is_alphabetic(c: char) -> bool;
+pub uninterp spec fn char_is_uppercase(c: char) -> bool;
+pub uninterp spec fn char_is_lowercase(c: char) -> bool;
+pub uninterp spec fn char_is_alphanumeric(c: char) -> bool;
+pub assume_specification[ char::is_alphabetic ](c: char) -> (r: bool) ensures r == char_is_alphabetic(c);
+pub assume_specification[ char::is_uppercase ](c: char) -> (r: bool) ensures r == char_is_uppercase(c);
+pub assume_specification[ char::is_lowercase ](c: char) -> (r: bool) ensures r == char_is_lowercase(c);
+pub assume_specification[ char::is_alphanumeric ](c: char) -> (r: bool) ensures r == char_is_alphanumeric(c);
+pub assume_specification[ char::is_ascii_alphabetic ](c: &char) -> (r: bool)
+    ensures r == (('a' <= *c && *c <= 'z') || ('A' <= *c && *c <= 'Z'));
